@@ -10,6 +10,7 @@ import Oracle.SampleMd
 import Oracle.Tokenizer
 import Oracle.Driver
 import Oracle.FSem
+import Oracle.Sem
 import Oracle.Decl
 open Oracle
 
@@ -24,6 +25,7 @@ def handle (line : String) : String :=
     | "tok.scan" | "tok.stream" => toString (Oracle.Tokenizer.handle stream payload)
     | "c16.driver" => toString (Oracle.Driver.handle payload)
     | "c01.prog" => toString (Oracle.FSem.handle payload)
+    | "sem.prog" => toString (Oracle.SemStream.handle payload)
     | "c03.union" => toString (Oracle.Decl.handle payload)
     | "c18.run" => toString (Oracle.SampleMd.handle payload)
     | "c15.type" => toString (Oracle.TypeExpr.handle payload)
